@@ -123,7 +123,40 @@ func c05ConcK(algo string, forced bool, scratch string, round int, k int) string
 		return "# CONC cannot open core: " + err.Error()
 	}
 	defer func() { nCloseCore(r.core) }()
-	if forced {
+	if forced && k == 3 {
+		// a directed schedule for three failure reports: the first report is inside its critical section while the
+		// second one queues for it; when the second one is inside, the third transmission fails and its report
+		// arrives while the second report is between its read and its write. With one mutex for all reports the
+		// third one waits; a lock that lets it through loses an update.
+		var mu sync.Mutex
+		arrived := 0
+		release3 := make(chan struct{})
+		verifSetHook(func(name string) {
+			if !strings.HasSuffix(name, ".ReportFailure.read") {
+				return
+			}
+			mu.Lock()
+			arrived++
+			n := arrived
+			mu.Unlock()
+			switch n {
+			case 1:
+				time.Sleep(60 * time.Millisecond)
+			case 2:
+				close(release3)
+				time.Sleep(120 * time.Millisecond)
+			}
+		})
+		defer verifSetHook(nil)
+		r.gate = func(addr, tag int, ok bool) {
+			if addr == 3 {
+				select {
+				case <-release3:
+				case <-time.After(2 * time.Second):
+				}
+			}
+		}
+	} else if forced {
 		var mu sync.Mutex
 		arrived := 0
 		both := make(chan struct{})
@@ -472,6 +505,7 @@ func TestVerifC05(t *testing.T) {
 			// three and four simultaneous failures (a lock that is only right for two would pass the lines above)
 			fmt.Fprintln(out, c05ConcK(algo, false, scratch, i, 3))
 			fmt.Fprintln(out, c05ConcK(algo, false, scratch, i, 4))
+			fmt.Fprintln(out, c05ConcK(algo, true, scratch, i, 3))
 		}
 	}
 
